@@ -42,12 +42,29 @@ Definition j_status (m : jmsg) : Z :=
   match fields (jm_start m) with _ :: c :: _ => match atoi c with Some z => z | None => 0 end | _ => 0 end.
 
 (* ------------------------------------------------------------------ C04 *)
-Definition pin_tab := list (jdialog * bytes).      (* dialog -> label of the backend that answered *)
-Definition pin_find (d : jdialog) (t : pin_tab) : option bytes :=
+(* dialog -> label of the backend that answered, and the instants (ns) the pin was made and runs out *)
+Definition pin_tab := list (jdialog * (bytes * (Z * Z))).
+Definition pin_find (d : jdialog) (t : pin_tab) : option (bytes * (Z * Z)) :=
   match find (fun x => jd_same d (fst x)) t with Some x => Some (snd x) | None => None end.
 Definition pin_del (d : jdialog) (t : pin_tab) : pin_tab := filter (fun x => negb (jd_same d (fst x))) t.
-Definition pin_set (d : jdialog) (b : bytes) (t : pin_tab) : pin_tab := (d, b) :: pin_del d t.
+Definition pin_set (d : jdialog) (b : bytes) (se : Z * Z) (t : pin_tab) : pin_tab := (d, (b, se)) :: pin_del d t.
+Definition pin_unknown (d : jdialog) (t : pin_tab) : pin_tab := pin_set d (s2b "?") (0, 0) t.
 Definition is_sub_state (n : bytes) : bool := equal_fold n (s2b "subscription-state").
+Definition is_expires (n : bytes) : bool := equal_fold n (s2b "expires").
+(* C15: a pin made at [now] by message m lives max(dialog timeout, Expires of m) seconds *)
+Definition pin_span (pc : proxy_case) (now : Z) (m : jmsg) : Z * Z :=
+  let ex := match j_first is_expires (jm_headers m) with
+            | Some v => match atoi v with Some z => z | None => 0 end
+            | None => 0 end in
+  (now, now + Z.max (c_dialog_timeout (pc_cfg pc)) ex * 1000 * ms).
+(* the driver's clock is the real one and runs ahead of the nominal instants by the processing time: a pin must be
+   honoured during the first half of its life, must not be once it is over by 300 ms, in between either is accepted *)
+Inductive phase := PLive | PGrey | PDead.
+Definition pin_phase (now : Z) (se : Z * Z) : phase :=
+  let '(s, e) := se in
+  if Z.leb ((now - s) * 2) (e - s) then PLive
+  else if Z.leb (e + 300 * ms) now then PDead
+  else PGrey.
 
 (* the rotation, as far as the observations determine it: the listener and the backend that received the last
    load-balanced request.  None = unknown (start, membership change, an input the judge does not read, a request
@@ -77,8 +94,9 @@ Fixpoint j04_run (pc : proxy_case) (st : jstate) (pins : pin_tab) (last : rot) (
       let next_r (p : pin_tab) (r : rot) := j04_run pc (js_step st ev outs) p r er or_ in
       let next (p : pin_tab) := next_r p last in
       let skip (p : pin_tab) := next_r p None in
+      let now := time_of (pc_waits pc) (js_event st) in
       match ev with
-      | EvBackendRemove li a => skip (filter (fun x => negb (beq (snd x) (s2b "udp:" ++ a))) pins)
+      | EvBackendRemove li a => skip (filter (fun x => negb (beq (fst (snd x)) (s2b "udp:" ++ a))) pins)
       | EvBackendAdd _ _ => skip pins
       | _ =>
           match j_input st ev with
@@ -92,19 +110,19 @@ Fixpoint j04_run (pc : proxy_case) (st : jstate) (pins : pin_tab) (last : rot) (
                       match j_dialog m, j_cseq_method m with
                       | Some d, Some meth =>
                           if (mem_bytes src backends && negb (ji_tcp i))%bool then
-                            if beq meth (s2b "INVITE") then next (pin_set d src pins)
+                            if beq meth (s2b "INVITE") then next (pin_set d src (pin_span pc now m) pins)
                             else if beq meth (s2b "BYE") then next (pin_del d pins)
                             else next pins
                           else if beq meth (s2b "SUBSCRIBE") then
                             (* a SUBSCRIBE issued by a backend has been answered: relayed towards it *)
                             match msgs_of outs with
-                            | [(l, _)] => if mem_bytes l backends then next (pin_set d l pins) else next pins
+                            | [(l, _)] => if mem_bytes l backends then next (pin_set d l (pin_span pc now m) pins) else next pins
                             | _ => next pins
                             end
                           else if (beq meth (s2b "INVITE") || beq meth (s2b "BYE"))%bool then
                             (* not from a backend address: the proxy may still attribute it through the client transaction
                                of its top Via; what it decides is not derivable from here: the dialog's pin is unknown *)
-                            next (pin_set d (s2b "?") pins)
+                            next (pin_unknown d pins)
                           else next pins
                       | _, _ => next pins
                       end
@@ -118,20 +136,25 @@ Fixpoint j04_run (pc : proxy_case) (st : jstate) (pins : pin_tab) (last : rot) (
                             match j_dialog m with
                             | Some d =>
                                 match pin_find d pins with
-                                | Some b =>
+                                | Some (b, se) =>
                                     if mem_bytes b backends then
-                                      if beq l b then
-                                        (* NOTIFY ... Subscription-State: terminated dissolves the pin (terminated;reason=: don't care) *)
-                                        match fields (jm_start m), j_first is_sub_state (jm_headers m) with
-                                        | meth :: _, Some ss =>
-                                            if beq meth (s2b "NOTIFY") then
-                                              if beq ss (s2b "terminated") then next (pin_del d pins)
-                                              else if has_prefix (s2b "terminated") ss then next (pin_set d (s2b "?") pins)   (* don't care *)
-                                              else next pins
-                                            else next pins
-                                        | _, _ => next pins
-                                        end
-                                      else Some (js_event st, 1%nat)
+                                      match pin_phase now se with
+                                      | PLive =>
+                                          if beq l b then
+                                            (* NOTIFY ... Subscription-State: terminated dissolves the pin (terminated;reason=: don't care) *)
+                                            match fields (jm_start m), j_first is_sub_state (jm_headers m) with
+                                            | meth :: _, Some ss =>
+                                                if beq meth (s2b "NOTIFY") then
+                                                  if beq ss (s2b "terminated") then next (pin_del d pins)
+                                                  else if has_prefix (s2b "terminated") ss then next (pin_unknown d pins)   (* don't care *)
+                                                  else next pins
+                                                else next pins
+                                            | _, _ => next pins
+                                            end
+                                          else Some (js_event st, 1%nat)
+                                      | PDead => balanced l (pin_del d pins)     (* its lifetime is over: like a new request *)
+                                      | PGrey => skip pins
+                                      end
                                     else
                                       (* the pin is unknown ("?"), or the backend that answered is gone: pinned or load-balanced,
                                          either is accepted, and where the cursor stands afterwards is not known *)
